@@ -5,9 +5,11 @@ HERE = os.path.dirname(os.path.abspath(__file__))
 VERIF = os.path.dirname(HERE)
 ALL = [f"C{i:02d}" for i in range(1, 19)]
 NOTE = ("Trusted: Lean 4.33 kernel; axioms propext/Classical.choice/Quot.sound only (audited with #print axioms each run); "
-        "no sorry/native_decide/bv_decide. Tie to the code, both checked on every run: (T) tools/c2lean.py re-translates 22 C "
-        "functions (tagged family, unrolled chained reader, sizing functions, zig-zag, group codes) from /repo's current source "
-        "into Lean and bridge theorems prove them equal to the model for all inputs; (H) for everything else the hand-written "
+        "no sorry/native_decide/bv_decide. Tie to the code, both checked on every run: (T) tools/c2lean.py and tools/c2lean2.py re-translate 39 C "
+        "functions from /repo's current source into Lean — loop-free: tagged family, unrolled chained reader, sizing functions, "
+        "zig-zag, group codes, bitstream set/get, tagged in-place add; WITH LOOPS (fuel-recursive definitions, proved to terminate): "
+        "chained-simple encode/length/decode, RLE analyze/encode/decode/run reader/run counter, adaptive sortedness scan — and "
+        "bridge theorems prove them equal to the model for all inputs; (H) for everything else the hand-written "
         "model = code is established by the differential correspondence only on the operations sampled (boundary-directed + "
         "seeded random), in the sanitised and the pinned -O2 build (thorough: also -O0 and -march=native, all alignments). "
         "Constants, README tables and the list of writable statics are regenerated from /repo on every run (tools/gen.py). "
@@ -33,9 +35,9 @@ CLAIMED = {
          "each of its N requests refused in turn, outcome/leak/usability checked and compared with the model's prediction. "
          "Known finding D35 (void bitmap APIs cannot report) is reported as KNOWN-FINDING",
          "Lean 4 proof (bitmap object under any refusal oracle) + exhaustive k-th-allocation-failure sweep compared with the model (partial: crashes/leaks are observed, not proved)"),
- "C14": ("Theorems, for EVERY byte list: the bounded tagged reader, both dictionary decoders, both Elias array decoders, the bitmap deserialiser and the RLE run counter never load at or beyond the declared size (memory-safety semantics: such a load is the outcome `fault`, proved unreachable), every malloc request is bounded, outputs never exceed the capacity, a tagged varint is reported as 0 exactly when cut short (also proved about the machine translation of varintTaggedGet), and the fuel of every model loop is adequate (termination). The models follow the C pointer arithmetic and are compared with the code on hostile inputs under ASan + guard pages",
+ "C14": ("varintRLEGetRunCount is machine-translated and proved equal to the bounded model (which never loads beyond the declared size) on every byte string: it terminates and reports a count. Theorems, for EVERY byte list: the bounded tagged reader, both dictionary decoders, both Elias array decoders, the bitmap deserialiser and the RLE run counter never load at or beyond the declared size (memory-safety semantics: such a load is the outcome `fault`, proved unreachable), every malloc request is bounded, outputs never exceed the capacity, a tagged varint is reported as 0 exactly when cut short (also proved about the machine translation of varintTaggedGet), and the fuel of every model loop is adequate (termination). The models follow the C pointer arithmetic and are compared with the code on hostile inputs under ASan + guard pages",
          "Lean 4 proof (memory-safety and termination of the model for all inputs; translated bounded reader) + differential correspondence on truncated/corrupt/hostile inputs"),
- "C06": ("Theorem adaptive_roundtrip: for every non-empty array of 64-bit values (count < 2^32) and EVERY outcome of the selector's floating-point comparisons, decoding the automatically selected encoding with the original count returns the original sequence, whatever follows the bytes (above 2^20 elements under 'the dictionary encoder accepted', i.e. did not report failure); forced encodings inside their domains are lossless (BITMAP for strictly increasing values < 65536, any capacity gives the prefix); the first byte names the encoding; BITMAP is selected only for strictly increasing < 65536 input. The model of the decoder (all six arms) is compared with the C decoder's output on every op; the output meta's previous content is checked not to influence the bytes",
+ "C06": ("The sortedness scan (varintAdaptiveCheckSorted, loop with early exit) is machine-translated and proved exact for every array: no neighbour pair is skipped. Theorem adaptive_roundtrip: for every non-empty array of 64-bit values (count < 2^32) and EVERY outcome of the selector's floating-point comparisons, decoding the automatically selected encoding with the original count returns the original sequence, whatever follows the bytes (above 2^20 elements under 'the dictionary encoder accepted', i.e. did not report failure); forced encodings inside their domains are lossless (BITMAP for strictly increasing values < 65536, any capacity gives the prefix); the first byte names the encoding; BITMAP is selected only for strictly increasing < 65536 input. The model of the decoder (all six arms) is compared with the C decoder's output on every op; the output meta's previous content is checked not to influence the bytes",
          "Lean 4 proof (all six arms, every selector outcome) + differential correspondence over every decision-tree leaf + meta-residue check"),
  "C07": ("Per-value theorems over all 2^64 IEEE patterns (FULL bit-exact, specials exact, relative error <= 2^-mantissaBits with carry renormalisation, automatic precision meets the request) and the ARRAY theorem: decoding the encoder's bytes yields, in order, what each value decodes to, for every precision byte, exponent mode and array of < 2^61 doubles, consuming exactly the bytes written; in FULL precision the array is reproduced bit for bit. Encoder bytes and decoder output are both compared with the model",
          "Lean 4 proof on IEEE-754 bit patterns + array-framing proof + differential correspondence (encode and decode)"),
@@ -45,27 +47,27 @@ CLAIMED = {
          "Lean 4 refinement proof over histories + differential histories vs reference set"),
  "C09": ("Refinement theorems: get/set are bit-field extract/insert of the slot array read as one little-endian number (read-after-write, isolation of every other element and storage bit, slots touched); lower-bound search; incr/half locality; the shifting loops refine list operations: positional insert = insertIdx, delete = eraseIdx, sorted insert keeps sortedness and is a permutation of v :: old, membership finds the first equal element, delete-member = erase; storage bits outside the moved range untouched. 103 real instantiations are driven through random histories against a reference array, plus elements whose bit position passes 2^32 / 2^33 on a sparse mapping",
          "Lean 4 refinement proof (Nat.testBit extensionality, list refinement of the shifting loops) + differential histories on 103 instantiations"),
- "C11": ("Theorems parametric in the slot width W, bit offset, field width 1..W, value and prior contents: read-after-write, "
+ "C11": ("varintBitstreamSet/Get (64-bit slots) are machine-translated from the header and proved equal to the model for EVERY bit offset below 2^64 (incl. offsets beyond 2^31/2^32 bits), every width 1..64, every prior contents: read-after-write, isolation and slots-stored hold on the translated C. Theorems parametric in the slot width W, bit offset, field width 1..W, value and prior contents: read-after-write, "
          "every bit outside the range unchanged, only overlapping words written; signed helpers; the four instantiations of "
          "the header are exercised exhaustively over (offset mod W, width)",
-         "Lean 4 proof via Nat.testBit extensionality + exhaustive (offset,width) correspondence"),
- "C02": ("Round-trip theorems for arrays of every length for EVERY codec: delta (signed/unsigned), zig-zag (also on the translated C), frame-of-reference + random access, run-length with and without header + random access, group + random access, dictionary (both decoders; for exactly the arrays the encoder accepts), Elias gamma/delta (any declared bit count from exact to byte-rounded, any capacity gives the prefix), PFOR at every threshold percentage, BP128 32/64-bit and both delta forms. All codecs are compared with the code on boundary-directed arrays, with round-trip / random-access monitors run on the implementation from exact-size copies",
-         "Lean 4 proof by induction over the array (all codecs) + differential correspondence with the C codecs"),
- "C03": ("Length-of-output theorems for every encoder: exact predictors (RLE, FOR, group, dictionary), upper bounds (delta, RLE incl. header, Elias, PFOR, BP128 x4, float for every precision/mode, adaptive for every outcome of the selector); the advertised-size FUNCTIONS themselves are translated from the current headers and proved equal to the model's formulas (no size_t wrap below 2^56 elements). Every encoder is run into a buffer of exactly the advertised size followed by a canary",
-         "Lean 4 proof of size bounds (all encoders) + translated sizing functions + canary at the advertised size"),
- "C13": ("For EVERY byte string each capacity-taking model decoder (FOR, RLE with and without header, group, dictionary DecodeInto, Elias gamma/delta, BP128 x4, adaptive with all six arms) stores at most cap values; on valid encodings a smaller capacity gives the documented failure or the correct prefix. Every decoder is run with capacities 0..n into exactly-sized output blocks with guards",
-         "Lean 4 proof over all byte strings (all capacity-taking decoders) + guard elements on the implementation"),
- "C16": ("Metadata of the model = real properties of the data: FOR min/max/range/width/size and header accessors, RLE runs (maximal, unique decomposition), group self-measured size and field widths, PFOR analysis facts (min, threshold, width, count, exception records) and header read-back; the harness recomputes ground truth independently for every codec (incl. Elias, BP128, float, adaptive). Known finding D15 (adaptive ReadMeta) is reported as KNOWN-FINDING",
+         "Lean 4 proof via Nat.testBit extensionality + machine-translated Set/Get with bridge theorems (all offsets) + exhaustive (offset,width) correspondence incl. far offsets"),
+ "C02": ("Run-length is proved END TO END ON THE TRANSLATED C: the bytes varintRLEEncode stores, handed to varintRLEDecode with the original count, reproduce the array (encoder loop, decoder's nested loops, tagged reader/writer all machine-translated). Round-trip theorems for arrays of every length for EVERY codec: delta (signed/unsigned), zig-zag (also on the translated C), frame-of-reference + random access, run-length with and without header + random access, group + random access, dictionary (both decoders; for exactly the arrays the encoder accepts), Elias gamma/delta (any declared bit count from exact to byte-rounded, any capacity gives the prefix), PFOR at every threshold percentage, BP128 32/64-bit and both delta forms. All codecs are compared with the code on boundary-directed arrays, with round-trip / random-access monitors run on the implementation from exact-size copies",
+         "Lean 4 proof by induction over the array (all codecs) + machine-translated RLE encoder/decoder with bridge theorems + differential correspondence with the C codecs"),
+ "C03": ("For run-length the statement is about the translated C itself: varintRLESize/Analyze's encodedSize = what varintRLEEncode returns = the number of bytes it stores, all at indices below it, within varintRLEMaxSize. Length-of-output theorems for every encoder: exact predictors (RLE, FOR, group, dictionary), upper bounds (delta, RLE incl. header, Elias, PFOR, BP128 x4, float for every precision/mode, adaptive for every outcome of the selector); the advertised-size FUNCTIONS themselves are translated from the current headers and proved equal to the model's formulas (no size_t wrap below 2^56 elements). Every encoder is run into a buffer of exactly the advertised size followed by a canary",
+         "Lean 4 proof of size bounds (all encoders) + translated sizing functions and RLE analyze/encode loops + canary at the advertised size"),
+ "C13": ("varintRLEDecode (outer run loop + inner fill loop) is machine-translated and proved: for any readable bytes incl. run lengths up to 2^64-1 it stores only at indices below the count it returns, which is <= maxCount (defect D40 found by this proof and repaired). For EVERY byte string each capacity-taking model decoder (FOR, RLE with and without header, group, dictionary DecodeInto, Elias gamma/delta, BP128 x4, adaptive with all six arms) stores at most cap values; on valid encodings a smaller capacity gives the documented failure or the correct prefix. Every decoder is run with capacities 0..n into exactly-sized output blocks with guards",
+         "Lean 4 proof over all byte strings (all capacity-taking decoders) + machine-translated RLE decoder with bridge theorem + guard elements and hostile run lengths on the implementation"),
+ "C16": ("RLE metadata proved on the translated C: count, runCount = number of maximal runs, encodedSize = bytes stored = return value, for Analyze and Encode. Metadata of the model = real properties of the data: FOR min/max/range/width/size and header accessors, RLE runs (maximal, unique decomposition), group self-measured size and field widths, PFOR analysis facts (min, threshold, width, count, exception records) and header read-back; the harness recomputes ground truth independently for every codec (incl. Elias, BP128, float, adaptive). Known finding D15 (adaptive ReadMeta) is reported as KNOWN-FINDING",
          "Lean 4 proof + independently recomputed ground truth in the harness"),
- "C01": ("Theorems for all 2^64 values (any trailing bytes) for all nine scalar families incl. fixed-width, quick-macro, reversed and 32-bit forms and the signed helpers. For the tagged family and the hand-unrolled chained reader the statements are ALSO proved about the machine translation of the C source (regenerated on every run): varintTaggedPut64 then varintTaggedGet returns the value, the four lengths agree and lie in 1..9, the stores are exactly bytes 0..n-1; the literal transcription of sqlite3's unrolled reader equals the format-level reader on every byte string. Split/chained-simple/external bodies are tied by the correspondence",
+ "C01": ("Chained-simple (encode loop, length loop, decode loop with early return) is machine-translated and proved for all 2^64 values and every fuel >= 10 (termination). Theorems for all 2^64 values (any trailing bytes) for all nine scalar families incl. fixed-width, quick-macro, reversed and 32-bit forms and the signed helpers. For the tagged family and the hand-unrolled chained reader the statements are ALSO proved about the machine translation of the C source (regenerated on every run): varintTaggedPut64 then varintTaggedGet returns the value, the four lengths agree and lie in 1..9, the stores are exactly bytes 0..n-1; the literal transcription of sqlite3's unrolled reader equals the format-level reader on every byte string. Split/chained-simple/external bodies are tied by the correspondence",
          "Lean 4 proof over executable model + C-to-Lean translation with bridge theorems (tagged, chained reader) + differential correspondence with the C code"),
- "C04": ("Model encoders proved equal to format specifications written from the documentation (tagged also on the translated C: stored bytes = sqlite4 format for all 2^64 values); length monotonicity and per-length maxima proved against constants and README tables regenerated from /repo; canonicity stated on the decoders (no accepted byte string shorter than the encoder's, same length implies same bytes) for tagged, chained, chained-simple, external and, for every first byte an encoder can produce, the four split families; bytes of the real encoders (incl. Elias streams) compared with the model",
+ "C04": ("Chained-simple bytes on the translated encoder loop = documented LEB128-capped-at-9 format; no writable statics (regenerated). Model encoders proved equal to format specifications written from the documentation (tagged also on the translated C: stored bytes = sqlite4 format for all 2^64 values); length monotonicity and per-length maxima proved against constants and README tables regenerated from /repo; canonicity stated on the decoders (no accepted byte string shorter than the encoder's, same length implies same bytes) for tagged, chained, chained-simple, external and, for every first byte an encoder can produce, the four split families; bytes of the real encoders (incl. Elias streams) compared with the model",
          "Lean 4 proof (model = documented format, canonicity, maxima = regenerated constants) + translated tagged encoder + byte-exact correspondence"),
  "C05": ("lexCmp (memcmp model) of tagged encodings = numeric compare for all pairs (also for the bytes stored by the translated varintTaggedPut64), prefix-freeness, tuples of any arity; real memcmp compared with the model on boundary/one-byte-different/random pairs and tuples",
          "Lean 4 proof (big-endian key argument, also on the translated C) + correspondence with real memcmp"),
- "C12": ("Theorems over all (stored value, slot width, amount) for tagged and external add: overflow untouched, exact int64 sum, "
+ "C12": ("varintTaggedAdd/AddNoGrow/AddGrow are machine-translated (slot read, __builtin_saddll_overflow, in-place re-encode) and the whole property is proved on the translated C for every slot and every int64 amount (c_tagged_add). Theorems over all (stored value, slot width, amount) for tagged and external add: overflow untouched, exact int64 sum, "
          "no-grow never writes beyond the slot, grow bounded by 9/8; harness replays boundary-crossing triples with guard bytes",
-         "Lean 4 proof over the add model + differential correspondence with guard bytes"),
+         "Lean 4 proof over the add model + machine-translated tagged add with bridge theorem + differential correspondence with guard bytes"),
 }
 m = {
  "version": 1,
@@ -74,7 +76,7 @@ m = {
            "enable": "harness is compiled with -DVARINT_VERIF against /repo/src of the working tree; no hook commits were needed in /repo (static functions are reached by #include of the .c file, allocation by -Wl,--wrap)",
            "baseline_off_cmd": "tools/baseline.sh", "source_commits": [], "add_only": True},
  "engines": [{"name": "lean-proof+correspondence", "path": "tools/vcheck.py", "serves_properties": sorted(CLAIMED),
-              "kind_free_text": "Lean 4 theorems about an executable model (lean/Varint), tied to /repo by a C-to-Lean translator with bridge theorems (tools/c2lean.py, lean/Varint/Bridge), regenerated constants/tables (tools/gen.py) and a differential correspondence harness (harness/*.c vs lean_exe vdriver)"}],
+              "kind_free_text": "Lean 4 theorems about an executable model (lean/Varint), tied to /repo by C-to-Lean translators with bridge theorems (tools/c2lean.py loop-free, tools/c2lean2.py loops/pointer walks/read-modify-write; lean/Varint/Bridge), regenerated constants/tables (tools/gen.py) and a differential correspondence harness (harness/*.c vs lean_exe vdriver)"}],
  "checks": [],
  "not_applicable": [],
  "notes": "see DESIGN.md; known_findings.json lists repaired (fixed:) and recorded defects",
